@@ -7,7 +7,8 @@
 (***************************************************************************)
 EXTENDS BatchingOps
 
-CONSTANTS MaxN, MaxD, ExtraB, BigBs    \* n in 1..MaxN, d in 1..MaxD, maxb in 1..n+ExtraB plus BigBs
+CONSTANTS Bug,    \* "none" | "floor_division" (states per device rounded down): anti-vacuity
+          MaxN, MaxD, ExtraB, BigBs    \* n in 1..MaxN, d in 1..MaxD, maxb in 1..n+ExtraB plus BigBs
 VARIABLES phase, n, maxb, d, L, arr
 
 vars == <<phase, n, maxb, d, L, arr>>
@@ -23,7 +24,12 @@ Init ==
   /\ arr = <<>>
 
 Construct == /\ phase = "new"
-             /\ L' = Layout(n, maxb, d)
+             /\ L' = IF Bug = "floor_division" /\ n >= d
+                     THEN LET spd == n \div d
+                              bs == IF d = 1 THEN Min(maxb, n) ELSE Min(maxb, Max(MinMultiDeviceBatch, spd))
+                              nb == IF spd <= bs THEN 1 ELSE CeilDiv(spd, bs)
+                          IN [nd |-> d, nb |-> nb, bs |-> bs, pad |-> d * nb * bs - n]
+                     ELSE Layout(n, maxb, d)
              /\ phase' = "laid_out"
              /\ UNCHANGED <<n, maxb, d, arr>>
 
